@@ -95,7 +95,11 @@ Definition df_flush (f : dfile) : dfile * list pos :=
 
 (* any history of a data file: single writes, staged writes flushed in one Write call,
    close-and-reopen.  Returns the file and every record written with the position reported. *)
-Inductive fop := FWrite (d : bytes) | FStage (d : bytes) | FFlush | FReopen.
+(* a Write call the back-end refuses (disk full, a revoked descriptor): nothing reaches the file, the call reports
+   the error, and the staged records - whose buffers writeAll has handed back already - are gone with it *)
+Definition df_refuse (f : dfile) : dfile := mkDf (df_id f) (df_bytes f) (df_bid f) (df_bsz f) [].
+
+Inductive fop := FWrite (d : bytes) | FStage (d : bytes) | FFlush | FReopen | FRefused.
 Fixpoint df_run (f : dfile) (ops : list fop) : dfile * list (bytes * pos) :=
   match ops with
   | [] => (f, [])
@@ -108,6 +112,7 @@ Fixpoint df_run (f : dfile) (ops : list fop) : dfile * list (bytes * pos) :=
       let '(f1, ps) := df_flush f in
       let '(f2, out) := df_run f1 r in (f2, combine staged ps ++ out)
   | FReopen :: r => df_run (df_open (df_id f) (df_bytes f)) r
+  | FRefused :: r => df_run (df_refuse f) r
   end.
 
 (* ---- readers ------------------------------------------------------------- *)
